@@ -1,5 +1,6 @@
 //! Correspondence / oracle harness for arc-swap (real crate, `--cfg arc_swap_verif`).
 mod conc;
+mod kinds;
 mod prog;
 mod rng;
 mod sched;
@@ -213,6 +214,11 @@ fn main() {
             );
             // exit status is decided by the caller from the file; hung executions leave threads
             std::process::exit(0);
+        }
+        "kinds" => {
+            for l in kinds::run() {
+                println!("{}", l);
+            }
         }
         _ => {
             eprintln!("usage: harness conc --sites <sites.json> --out <file> [--family f1,f2] [--seed n] [--count n] [--replay file [--exec k]]");
